@@ -187,6 +187,24 @@ func (n *normalizer) freeNames(lit *ast.FuncLit) map[string]bool {
 // cannot rewrite.
 func (n *normalizer) inlineLitCalls(b *ast.BlockStmt, pv types.Object, lit *ast.FuncLit) bool {
 	ft := lit.Type
+	// a deferred call or a recover in the literal belongs to the literal's own frame
+	framed := false
+	ast.Inspect(lit.Body, func(x ast.Node) bool {
+		switch y := x.(type) {
+		case *ast.FuncLit:
+			return false
+		case *ast.DeferStmt:
+			framed = true
+		case *ast.CallExpr:
+			if id, ok := y.Fun.(*ast.Ident); ok && id.Name == "recover" {
+				framed = true
+			}
+		}
+		return !framed
+	})
+	if framed {
+		return false
+	}
 	if ft.Params != nil {
 		for _, f := range ft.Params.List {
 			if _, isEll := f.Type.(*ast.Ellipsis); isEll {
@@ -390,8 +408,44 @@ func (n *normalizer) inlineLitCalls(b *ast.BlockStmt, pv types.Object, lit *ast.
 			return []ast.Stmt{x}
 		case *ast.IfStmt:
 			if mentions(x.Cond) {
-				okAll = false
-				return []ast.Stmt{s}
+				// the whole condition is one call of the literal (or its negation): evaluated first in any
+				// case, so it can run before the if
+				cond := ast.Unparen(x.Cond)
+				neg := false
+				if u, isU := cond.(*ast.UnaryExpr); isU && u.Op == token.NOT {
+					cond, neg = ast.Unparen(u.X), true
+				}
+				call := isLitCall(cond)
+				if call == nil || nres != 1 || x.Init != nil {
+					okAll = false
+					return []ast.Stmt{s}
+				}
+				for _, a := range call.Args {
+					if mentions(a) {
+						okAll = false
+						return []ast.Stmt{s}
+					}
+				}
+				pre, res, ok := expandCall(call)
+				if !ok {
+					okAll = false
+					return []ast.Stmt{s}
+				}
+				if neg {
+					x.Cond = &ast.UnaryExpr{OpPos: x.Cond.Pos(), Op: token.NOT, X: res[0]}
+				} else {
+					x.Cond = res[0]
+				}
+				x.Body.List = rwList(x.Body.List)
+				if x.Else != nil {
+					r := rwStmt(x.Else)
+					if len(r) == 1 {
+						x.Else = r[0]
+					} else {
+						x.Else = &ast.BlockStmt{Lbrace: x.Pos(), Rbrace: x.Pos(), List: r}
+					}
+				}
+				return []ast.Stmt{&ast.BlockStmt{Lbrace: x.Pos(), Rbrace: x.End(), List: append(pre, x)}}
 			}
 			var pre []ast.Stmt
 			if x.Init != nil && mentions(x.Init) {
@@ -467,4 +521,182 @@ func (n *normalizer) inlineLitCalls(b *ast.BlockStmt, pv types.Object, lit *ast.
 	}
 	b.List = rwList(b.List)
 	return okAll
+}
+
+// inlineLocalLiterals: a local that is bound once to a function literal and is only ever called (never passed
+// on, stored, reassigned or used inside another literal):
+//
+//	f := func(a T) R { ... } ... f(x)      =>      the body of the literal at each call
+//
+// The literal's free variables are captured by reference, so running its body at the call site reads and
+// writes the same variables; the rewrite is only made where every free name of the literal still denotes the
+// same object at the call site (no shadowing).  Returns the body to use (the given one when nothing changed).
+func (n *normalizer) inlineLocalLiterals(body *ast.BlockStmt) *ast.BlockStmt {
+	type cand struct {
+		as  *ast.AssignStmt
+		obj types.Object
+		lit *ast.FuncLit
+	}
+	var cands []cand
+	ast.Inspect(body, func(x ast.Node) bool {
+		as, ok := x.(*ast.AssignStmt)
+		if !ok || as.Tok != token.DEFINE || len(as.Lhs) != 1 || len(as.Rhs) != 1 {
+			return true
+		}
+		id, ok := as.Lhs[0].(*ast.Ident)
+		if !ok || id.Name == "_" {
+			return true
+		}
+		lit, ok := ast.Unparen(as.Rhs[0]).(*ast.FuncLit)
+		if !ok {
+			return true
+		}
+		oid, _ := n.o(id).(*ast.Ident)
+		if oid == nil || n.info.Defs[oid] == nil {
+			return true
+		}
+		cands = append(cands, cand{as, n.info.Defs[oid], lit})
+		return true
+	})
+	for _, c := range cands {
+		// uses: only as the function of a call, outside every literal
+		callFuns := map[*ast.Ident]*ast.CallExpr{}
+		ast.Inspect(body, func(x ast.Node) bool {
+			if call, isCall := x.(*ast.CallExpr); isCall {
+				if id, isId := ast.Unparen(call.Fun).(*ast.Ident); isId {
+					callFuns[id] = call
+				}
+			}
+			return true
+		})
+		ok, uses := true, 0
+		var calls []*ast.CallExpr
+		var walk func(x ast.Node, inLit bool)
+		walk = func(x ast.Node, inLit bool) {
+			ast.Inspect(x, func(y ast.Node) bool {
+				switch z := y.(type) {
+				case *ast.FuncLit:
+					if y != x {
+						walk(z.Body, true)
+						return false
+					}
+				case *ast.Ident:
+					if n.useOf(z) == c.obj && n.o(z) != n.o(c.as.Lhs[0]) {
+						uses++
+						if inLit || callFuns[z] == nil {
+							ok = false
+						} else {
+							calls = append(calls, callFuns[z])
+						}
+					}
+				}
+				return true
+			})
+		}
+		walk(body, false)
+		if !ok || uses == 0 {
+			continue
+		}
+		// no free name of the literal is shadowed at a call site
+		olit, _ := n.o(c.lit).(*ast.FuncLit)
+		if olit == nil {
+			continue
+		}
+		own := map[types.Object]bool{}
+		ast.Inspect(olit, func(x ast.Node) bool {
+			if id, isId := x.(*ast.Ident); isId {
+				if ob := n.info.Defs[id]; ob != nil {
+					own[ob] = true
+				}
+			}
+			return true
+		})
+		free := map[string]types.Object{}
+		ast.Inspect(olit, func(x ast.Node) bool {
+			if id, isId := x.(*ast.Ident); isId {
+				if ob := n.info.Uses[id]; ob != nil && !own[ob] {
+					if v, isVar := ob.(*types.Var); isVar && v.IsField() {
+						return true
+					}
+					if _, isFn := ob.(*types.Func); isFn && ob.Parent() == nil {
+						return true // a method name
+					}
+					free[id.Name] = ob
+				}
+			}
+			return true
+		})
+		for _, call := range calls {
+			ocall, _ := n.o(call).(*ast.CallExpr)
+			if ocall == nil {
+				ok = false
+				break
+			}
+			sc := n.pkg.Types.Scope().Innermost(ocall.Pos())
+			if sc == nil {
+				ok = false
+				break
+			}
+			for name, ob := range free {
+				if _, found := sc.LookupParent(name, ocall.Pos()); found != ob {
+					ok = false
+				}
+			}
+		}
+		if !ok {
+			continue
+		}
+		trial := n.clone(body).(*ast.BlockStmt)
+		var tas *ast.AssignStmt
+		ast.Inspect(trial, func(x ast.Node) bool {
+			if as, isAs := x.(*ast.AssignStmt); isAs && n.o(as) == n.o(c.as) {
+				tas = as
+			}
+			return tas == nil
+		})
+		if tas == nil {
+			continue
+		}
+		tlit, _ := ast.Unparen(tas.Rhs[0]).(*ast.FuncLit)
+		if tlit == nil {
+			continue
+		}
+		saved := n.stats.Expanded
+		// the definition goes first: afterwards only the calls mention the name
+		if !replaceStmt(trial, tas, &ast.EmptyStmt{Semicolon: tas.Pos(), Implicit: true}) {
+			continue
+		}
+		if !n.inlineLitCalls(trial, c.obj, tlit) {
+			n.stats.Expanded = saved
+			continue
+		}
+		n.stats.Helpers["(local function literal)"]++
+		body = trial
+	}
+	return body
+}
+
+// replaceStmt replaces statement old, wherever it stands in a statement list below root, by repl.
+func replaceStmt(root ast.Node, old, repl ast.Stmt) bool {
+	done := false
+	swap := func(list []ast.Stmt) {
+		for i, s := range list {
+			if s == old {
+				list[i] = repl
+				done = true
+			}
+		}
+	}
+	ast.Inspect(root, func(x ast.Node) bool {
+		switch y := x.(type) {
+		case *ast.BlockStmt:
+			swap(y.List)
+		case *ast.CaseClause:
+			swap(y.Body)
+		case *ast.CommClause:
+			swap(y.Body)
+		}
+		return !done
+	})
+	return done
 }
